@@ -54,6 +54,44 @@ CLAIMED = {
              "by ~15k generated (configuration, probe) decisions per quick run, each judged by the Lean specification firstBearing.",
         note="Partial for one link: 'anchored search == whole-name match' is carried by the correspondence and judge, not by a theorem. Go regexp outside the modelled fragment and Unicode folding are not covered. main.go's map-ordered entry list is out of scope (the ordered list given to the checker is what is modelled).",
         ref="DESIGN.md §6 C07"),
+    "C08": dict(
+        technique="Lean 4 theorems (batch alignment, what-is-signed, injectivity of SSZ chunks) + real BLS verification of real signatures against the Lean model's SHA-256/SSZ signing roots",
+        text="Partial (crypto assumed). Theorems C08_batch_pointwise (response position i carries the signing root of request i's own "
+             "data; the rules call preserves order and payload), C08_signed_root (single endpoints sign the root of exactly the "
+             "submitted data under the resolved account's key), C08_leaves_injective / C08_header_leaves_injective (SSZ chunks "
+             "determine well-formed data). Tie: every signature the implementation returns (batches of 1..65, thorough 300, "
+             "GOMAXPROCS 1,2,3,16) is verified by the real BLS library under the addressed account's key over the root computed "
+             "by the Lean model's own SHA-256/merkleisation; neighbouring positions' roots must be rejected.",
+        note="Assumed: SHA-256 collision resistance, herumi BLS. The model's SHA-256/SSZ are re-implementations tied by the verification itself.",
+        ref="DESIGN.md §6 C08"),
+    "C09": dict(
+        technique="Lean 4 theorems (rule-level liveness, batch = sequence by induction with distinct keys, scatter partition for all n,p; history-level liveness via the exact-record invariant) + twin-instance differential + exhaustive scatter grid + Lean judge",
+        text="Theorems C09_live_att_rule/_prop_rule (a well-formed request above the record and below 2^63 is approved and "
+             "recorded), C09_batch_eq_seq (for distinct keys with decodable records the batch path returns, position by position, "
+             "the verdicts of its entries one at a time), C09_scatter_partition (Scatter's extents tile [0,n) for every n,p>0). "
+             "Tie: util.Scatter vs the Lean extents on the full grid n<=600 x 9 GOMAXPROCS values; clean histories judged for "
+             "liveness by the Lean predicate; each history's last batch re-run entry by entry on a twin instance.",
+        note="Liveness at history level assumes fault-free, import-free histories (stated in the property). Trusted: Lean kernel + 3 axioms; correspondence check.",
+        ref="DESIGN.md §6 C09"),
+    "C10": dict(
+        technique="Lean 4 theorems over a model of the command-level import (parse, merge, write) + differential correspondence against the built dirk binary + Lean-spec judge on observed exports",
+        text="Theorems C10_never_lowers, C10_protects (every number in the file is covered afterwards), C10_composes (range invariant "
+             "preserved, so any sequence of imports), C10_refuses_after_prop/_att, C10_bad_metadata, C10_parse_error_no_change; "
+             "for all prior stores in int64 range, files and flags. Tie: the dirk binary itself is built from /repo and driven "
+             "through import/export on real badger directories (prior stores, repeated keys, mixed-age fields, malformed numbers "
+             "and keys, bad metadata, sequences), exports and rule probes diffed with the model, each import judged by the Lean "
+             "predicate importProtects on the before/after exports.",
+        note="encoding/json and viper are outside the model (both sides get the same structured file description). Trusted: Lean kernel + 3 axioms; correspondence check.",
+        ref="DESIGN.md §6 C10"),
+    "C11": dict(
+        technique="Lean 4 theorems (codec round-trip, export->import->same fetched states and decisions, exact-record invariant) + differential correspondence incl. Go-gob-encoded legacy records and binary export/import round trip + Lean judge",
+        text="Theorems C11_codec_roundtrip, C11_restart, C11_import_export_same_decisions (re-imported store fetches the same states, "
+             "so every request gets the same verdict). Tie: clean histories with frequent exports judged 'exactly the highest "
+             "released slot/source/target'; stores pre-populated with records produced by Go's own encoding/gob opened by the "
+             "real rules service and probed around the watermarks (the Lean gob model decodes the same bytes); export by the "
+             "binary -> import into an empty store by the binary -> identical probes on both stores must agree.",
+        note="The Lean gob model covers streams Go's encoder produces for the two legacy structs. Trusted: Lean kernel + 3 axioms; correspondence check.",
+        ref="DESIGN.md §6 C11"),
 }
 
 
